@@ -159,7 +159,7 @@ def _nontrivial(case):
 PANEL_HOSTS = ["example.com", "Example.COM", "bbc.co.uk", "a.b.x.kawasaki.jp", "city.kawasaki.jp", "foo.unknowntld",
                "xn--9ca.fr", "é.fr", "localhost", "127.0.0.1"] + IPV6
 PANEL_AUTH = ["", "user@", "user:pw@", ":pw@", "user:@", "u:p:w@"]
-PANEL_PORT = ["", ":8080", ":80", ":"]
+PANEL_PORT = ["", ":8080", ":80", ":", ":0", ":0080"]
 PANEL_PATH = ["", "/", "/a", "/a/", "/a//b", "//a", "/a:b/@c", "/a/./../b"]
 PANEL_TAIL = ["", "?", "?q=1&r=a:b@c", "#", "#f/g", "?q#f", "?a=b?c#d?e"]
 
